@@ -8,7 +8,8 @@ RULE = ("typed random expression trees (depth <= 6 quick / <= 10 thorough) over 
         "literals (0, -0 via negation, fractions, 2^53+1, 1e300, negative, empty string/list, Bangla strings), variables of "
         "every type and pure user functions; about 30% ill-typed by construction; rendered with minimal, redundant and "
         "full parentheses under random layouts. The printed line / error class is compared with the Lean model and, "
-        "independently, with a Python evaluation of the tree (the tree denotation). Non-trivial: >= 2 operators.")
+        "independently, with a Python evaluation of the tree (the tree denotation). Non-trivial: >= 2 operators."
+        ' Shared name-collision family (props/collisions.py): 24 scenarios in which one name is bound more than once, x 2 layouts.')
 ASSUMPTIONS = ["hardware IEEE-754 arithmetic equals Python's float arithmetic and math.fmod", "see C09 for number printing"]
 default_compare = lambda m, i: C.compare_run(m, i, line=True)
 
@@ -350,4 +351,10 @@ def cases(rng, tier, stats):
     stats["outcomes"] = hist
     stats["operators_per_tree"] = ops_hist
     stats["op_pair_table"] = len(ops) * len(ops) * 6
+    # one name in two roles (props/collisions.py): shadowed functions, parameters named like globals / built-ins / their own function,
+    # bare conditions, indexed and plain writes, re-declarations — every use of a name resolves to its innermost binding
+    from props import collisions
+    nc_ = collisions.family()
+    out += nc_
+    stats["name_collision_programs"] = len(nc_)
     return out
